@@ -7,10 +7,7 @@ def collect(facts):
     inv = {"struct_literals": {}, "unwrap_expect": 0, "asserts": 0, "fns_by_module": {}, "mir_asserts": 0,
            "mir_calls": 0, "loops": 0, "closures": facts.n_closures, "body_owners": facts.n_body_owners}
     for p, fn in facts.fns.items():
-        if "array::vec" in p:
-            mod = "array::vec"
-        else:
-            mod = fn["sp"].split(":")[0]
+        mod = fn["sp"].split(":")[0]
         inv["fns_by_module"][mod] = inv["fns_by_module"].get(mod, 0) + 1
         inv["mir_asserts"] += len(fn.get("mir_asserts", []))
         inv["mir_calls"] += len(fn.get("mir_calls", []))
